@@ -429,7 +429,7 @@ pub fn run_all(programs: Vec<Vec<String>>, outdir: &std::path::Path, g: &Geo, pn
         if let Some(note) = &res.note {
             writeln!(vio, "ANY\t{}\t0\t{}", k, note).unwrap();
         }
-        for v in oracle::check(&cfg, g.cap as usize, &prog[1..], &res.outs) {
+        for v in oracle::check(&cfg, g.cap as usize, (g.max_alloc - g.meta) as usize, &prog[1..], &res.outs) {
             writeln!(vio, "{}\t{}\t{}\t{}", v.prop, k, v.line, v.msg).unwrap();
         }
     }
